@@ -182,6 +182,32 @@ def directed(default_params):
                       {"op": "rename.gen", "slot": 0, "route": route},
                       {"op": "rename.gen", "slot": 0, "route": route}]
     out.append(("einstein-powers", P, steps))
+    # normal-ordered operator strings whose summed index sits on a creator and an annihilator
+    # of the same string; Einstein convention and explicit targets, plain and spin-labelled
+    for spin in (False, True):
+        sfx = (lambda n, k: f"{n}:{'ab'[k % 2]}") if spin else (lambda n, k: n)
+        steps = []
+        nos = [
+            ([["no", [["c", sfx("q", 0)], ["a", sfx("q", 0)]]]], []),
+            ([["nst", "X", [sfx("q", 0), sfx("q", 0)]],
+              ["no", [["c", sfx("r", 0)], ["a", sfx("r", 0)]]]], []),
+            ([["ast", "f", [sfx("k", 0)], [sfx("c", 0)], 0],
+              ["no", [["c", sfx("k", 0)], ["a", sfx("c", 0)]]]], []),
+            ([["nst", "w", [sfx("i", 0), sfx("a", 0)]],
+              ["no", [["c", sfx("l", 1)], ["a", sfx("l", 1)], ["c", sfx("d", 1)],
+                      ["a", sfx("d", 1)]]]], [sfx("i", 0), sfx("a", 0)]),
+            ([["amp", "Y", [sfx("b", 0)], [sfx("j", 0)], 0],
+              ["no", [["c", sfx("b", 0)], ["a", sfx("j", 0)], ["c", sfx("m", 1)],
+                      ["a", sfx("m", 1)]]]], []),
+        ]
+        for atoms, tg in nos:
+            steps.append({"op": "build", "slot": 0, "targets": tg,
+                          "terms": [{"pref": [1, 1], "atoms": atoms}]})
+            for route in (6, 0, 3):
+                steps += [{"op": "rename.sc", "slot": 0, "route": route, "keep": True},
+                          {"op": "rename.gen", "slot": 0, "route": route, "keep": True}]
+        out.append((f"operator-strings-{'spin' if spin else 'plain'}",
+                    dict(P, spin_mode=spin), steps))
     # unexpanded input: a sum multiplied by common factors, Einstein convention and provided
     # targets, Expr-level renamings (which have to expand first)
     steps = []
